@@ -75,8 +75,31 @@ def compu_xml(cm: Dict[str, Any]) -> str:
     return og.tag("COMPU-METHOD", body)
 
 
+class Broken:
+    """stands for a configuration the library could not even load"""
+
+    def __init__(self, exc: str) -> None:
+        self.exc = exc
+
+
 def build(cms: List[Dict[str, Any]]) -> List[Any]:
-    """All configurations as DOPs of one layer; returns the real CompuMethod objects in order."""
+    """All configurations as DOPs of one layer; returns the real CompuMethod objects in order (a configuration that cannot
+    be loaded is identified by loading them one by one and returned as Broken)."""
+    try:
+        return _build(cms)
+    except Exception:  # noqa: BLE001
+        if len(cms) == 1:
+            raise
+    out: List[Any] = []
+    for cm in cms:
+        try:
+            out.append(_build([cm])[0])
+        except Exception as e:  # noqa: BLE001
+            out.append(Broken(f"{type(e).__name__}: {str(e)[:100]}"))
+    return out
+
+
+def _build(cms: List[Dict[str, Any]]) -> List[Any]:
     lay = og.Layer("BASE-VARIANT", "BV", "BV")
     for n, cm in enumerate(cms):
         bits = 64 if cm["it"] == "float" else 32
@@ -126,6 +149,8 @@ def call(fn: Any, *a: Any) -> Tuple[Any, str, bool]:
 def compare(cm: Dict[str, Any], rec: Dict[str, Any], real: Any) -> List[Tuple[str, Dict[str, Any]]]:
     """All clause failures of one configuration: [(clause, detail)]."""
     out: List[Tuple[str, Dict[str, Any]]] = []
+    if isinstance(real, Broken):
+        return [("exception", {"op": "load", "exc": real.exc})]
     it, pt, cat = cm["it"], cm["pt"], cm["cat"]
     inj = bool(rec["injective"])
     images: List[Fraction] = []
@@ -207,6 +232,10 @@ def compare(cm: Dict[str, Any], rec: Dict[str, Any], real: Any) -> List[Tuple[st
         v, exc, _ = call(real.is_valid_internal_value, bad)
         if exc or v:
             out.append(("valid_internal", {"x": repr(bad), "expected": False, "got": v, "exc": exc, "xtype": type(bad).__name__}))
+    for bad in ((7, None, b"\x07") if cat == "TEXTTABLE" else ("7", None, b"\x07")):
+        v, exc, _ = call(real.is_valid_physical_value, bad)
+        if exc or v:
+            out.append(("valid_physical", {"y": repr(bad), "expected": False, "got": v, "exc": exc, "ytype": type(bad).__name__}))
     return out
 
 
